@@ -416,7 +416,11 @@ def _run_instance(c, tree, mod, label, recv, rep, timeout_ms, lookup):
     interp.prefer_shadow = c.prefer_shadow
     for oname, spec in c.opaque.items():
         getter = spec[0]
-        interp.opaque[getter(mod)] = (oname,) + tuple(spec[1:])
+        try:
+            target = getter(mod)
+        except AttributeError:
+            continue          # the abstracted callee no longer exists in the module: nothing to abstract (the code changed)
+        interp.opaque[target] = (oname,) + tuple(spec[1:])
     interp.decl_disciplines = dict(c.decl_disciplines)
     interp.loop_ordinals = extract.module_loop_ordinals(tree, target_node)
     st = St()
